@@ -1,4 +1,4 @@
-CONSTANTS Depth2 = 4 Depth3 = 2 Depth4 = 1 MaxEntry = 4 X2 = 4 X3 = 1 X4 = 0
+CONSTANTS Depth2 = 4 Depth3 = 2 Depth4 = 1 MaxEntry = 4 X2 = 5 X3 = 2 X4 = 1
 SPECIFICATION Spec
 INVARIANTS Laws Emit
 CHECK_DEADLOCK FALSE
